@@ -609,6 +609,7 @@ var Engine = &core.Engine{
 	Level: "fault_enumeration",
 	Rule: "SkipHooks matrix over a second model family whose EVERY related model (belongs to, has one, has many with a nested has many, many to many with a join model) declares all nine hooks: each of ~70 operations (about 110 with the update and association-mode operations named below) that run further statements on their own (Delete with selected relations / clause.Associations over struct, value slice and pointer slice, nested Select, association mode Append / Replace / Clear / Delete / Find / Count with and without Unscoped for each relation kind, Create / Save of new graphs, Save of an existing graph with and without FullSaveAssociations, Updates with associations, upsert, FirstOrCreate, nested Preload, Preload below Joins, FindInBatches whose callback writes through the handle it is given, UpdateColumn / UpdateColumns in five forms) is paired with each of 11 ways to derive the handle (Session{SkipHooks}, with NewDB in the same or a later Session call, a further Session / WithContext, Begin before and after the Session call, Transaction, nested Transaction): the pair is run with hooks (must fire hooks, creates and selected-relation deletes are checked exactly: once per in-memory record, once per link record / per selected relation for the records gorm makes itself, inside the span of the argument's before- and after-hooks, one transaction that also carries every hook's own write), then below SkipHooks (no hook of any model, no error), and for single-operation writes once per hook invocation with that invocation refused (error returned, everything undone, only the failing phase continues); column-update methods must fire nothing with hooks on either; the quick tier runs every (operation, handle) pair once; " +
 		"the same family also runs, with exact sequence checks, the updates that write NO column of the owner (HOwner has no auto-update-time column): Updates(zero struct), Updates(empty map), a Select / an Omit that excludes every given value - each with and without new associated records held by the model value (saved between the owner's BeforeSave/BeforeUpdate and AfterUpdate/AfterSave, which fire once each although no UPDATE statement is issued) -, Update / Updates over a value slice and a pointer slice of 1..3 stored owners (per element, slice order), and association mode Append / Replace of NEW records for each relation kind over a struct owner, a value slice and a pointer slice of 1..3 owners with one argument per owner (single record, value slice, pointer slice): per owner the four update hooks once in order around the create hooks of its new records and of the link records; every demanded invocation is refused once: single owner = error returned and everything undone, owner slices (one transaction per owner) = error returned, the refusing hook's own write undone, no later phase for the refusing record, no transaction left open; every run with hooks that returns no error must be balanced per record (BeforeX and AfterX equally often); " +
+		"the same family also creates / saves (Create, Save, every third time below Session{FullSaveAssociations}) a value slice, pointer slice, pointer array or value array of 2..4 new owners of which two or more (random positions) hold the SAME *HBoss - one in-memory belongs-to record reachable from several elements, a new record with a caller-chosen non-zero key and no row; up to two such shared records per argument, the other owners carry a new boss of their own without key, the key of a stored boss or none: every hook of the shared record once, between the owners' before- and after-hooks, one transaction, every invocation refused once (signatures hooked-family/create-shared-boss-<shape>, hooked-family/save-shared-boss-<shape>); " +
 		"generated reads over the first family: 9 sources of the statement (conditions, Raw SQL, Raw SQL + Preload, Table, Model, column subset, Joins, Preload, Limit) x 14 finisher/destination forms (Find into value slice, pointer slice, value array and pointer array exactly as long as / two longer than the result, struct; First, Take, Last, First into a slice, FindInBatches, FirstOrInit, FirstOrCreate) x 0..3 matching rows (every fifth pass: none), a third of the non-raw ones executed twice on one chain value: the destination is read back and every element that holds a loaded record must have seen AfterFind exactly once on its own address with the loaded payload, nothing else (the unused tail of an array) any, preloaded orders once each; then SkipHooks (none), then every AfterFind invocation refused once (error returned); " +
 		"a Delete is repeated on the same in-memory records (rows gone: same hooks), a Save of a record with a preset key and no row must run every phase once; every operation also runs as the first statement of a fresh handle (cold schema cache, raw DDL) and must fire the same hooks; after-hooks address the current record through the statement (SetColumn / Changed); the 16 write operation kinds of C05 over seeded record graphs (struct, value slice, pointer slice, batches; children with their own hooks) plus 7 read kinds (Find, First, Take, Preload, condition, map destination, FindInBatches); each operation is run fault-free (sequence, exactly-once, statement position, slice order, transaction identity of hook writes, stored before-hook values), in a SkipHooks session, and once per hook invocation index with that invocation failing; " +
 		"distinct = (kind, hooks fired, records) resp. (kind, failing hook, type, first/last) resp. (source, finisher, matching rows, reused); non-trivial = at least one hook fired",
@@ -622,6 +623,7 @@ var Engine = &core.Engine{
 		"association mode and every update restricted by Select save the named relation and nothing below it: the new pets of those operations carry no collars; Replace unlinks the old records with statements of its own after the owner's save: delete hooks gorm runs there on model values of its own are neither demanded nor refused; association mode over a slice of owners saves owner after owner in a transaction each: complete rollback is demanded for a single owner only",
 		"generated reads: a preloaded record sees AfterFind in the destination of the preload query before it is copied into its owner's field, so it is identified by payload, users by the address of the destination element; Take demands any one matching record; SQL handed over as text is not executed twice on one chain value and not finished with FindInBatches / FirstOrInit / FirstOrCreate (they rebuild the statement); arrays shorter than the result, Scan / Rows / ScanRows (whether they run AfterFind is not fixed by the statement) and pointer arrays longer than the result together with Preload (the preload itself panics on the nil tail, hooks or not) are not generated",
 		"hooked family: graphs handed to Create / Save attach only NEW associated records (which hooks an already stored associated record sees when it is upserted is not fixed by the statement); association mode, Save of an existing graph, Updates with associations, upsert, FirstOrCreate and reads are run with hooks only to show that hooks apply (and, for the single-operation writes, for the refusal enumeration): their exact sequence is not demanded; empty slices and zero-key delete arguments are not generated",
+		"a belongs-to record shared by several elements of one argument is generated only as ONE in-memory record (the same pointer) that carries a non-zero key: distinct in-memory values with equal keys (gorm writes the first and passes the others by: which of them is \"affected\" is not fixed by the statement) and a shared pointer WITHOUT key (no key to recognise it by) are not generated; has-one / has-many records are not shared between owners (a row has one owner)",
 	},
 	Cases: func(tier string) int {
 		if tier == "thorough" {
